@@ -23,7 +23,7 @@ RULE = ("one evaluation = (operator, arity, operand-form mode, argument tuple): 
         "that makes the operation raise. Non-trivial = arity >= 3, or a raising tuple, or a tuple on which "
         "left and right fold differ (both computed); distinct by (operator, mode, form text, tuple).")
 FLOOR = {"quick": 2000, "thorough": 2000}
-BUDGET = {"quick": 24, "thorough": 420}
+BUDGET = {"quick": 20, "thorough": 420}
 CASE_TIMEOUT = 20
 NEEDS_EVENTS = True
 ANCHORS = ["hy.core.result_macros:compile_maths_expression",
@@ -72,6 +72,26 @@ UNDOCUMENTED = {("@", 1)}
 # "Typically, the aggregator is the same as the original operator ... Exceptions ... are noted in
 # the documentation for the parent operator"): only - / << >> carry an "Aggregator" note.
 AGG_DOC = {"-": "+", "/": "*", "<<": "+", ">>": "+"}
+
+
+def _load_agg_doc():
+    """Read the documented aggregators from the docstrings of the tree under test
+    ("Aggregator for augmented assignment: :hy:func:`X <hy.pyops.X>`"); the oracle is what
+    the documentation says, so a documentation change is followed, not hard-coded."""
+    import re
+    try:
+        import hy
+        import hy.pyops as P
+        table = {}
+        for op in ["+", "-", "*", "/", "//", "%", "**", "<<", ">>", "|", "^", "&", "@"]:
+            f = getattr(P, hy.mangle(op), None)
+            m = re.search(r"Aggregator for augmented assignment: :hy:func:`(\S+) <", (f.__doc__ or "")) if f else None
+            if m:
+                table[op] = m.group(1)
+        AGG_DOC.clear()
+        AGG_DOC.update(table)
+    except Exception:
+        pass
 NO_AGG = {"%", "^"}          # binary-only parents: exactly one value
 
 MODES = ["var", "L", "mix", "lit", "s1", "s2", "s3", "aug"]
@@ -734,3 +754,7 @@ def run_aug(case, res):
                         f"[twin: {src.splitlines()[1].strip()}]")[:700],
                 "finding": finding, "sample": {"text": case["text"], "tuple": t}})
     return conclude(res, failures)
+
+
+def setup_worker(tier, seed):
+    _load_agg_doc()
